@@ -196,7 +196,7 @@ def _axioms_of(body):
     ax = []
     for line in body.split('\n'):
         m = re.match(r'^([A-Za-z_][A-Za-z0-9_\.\']*)\s*:', line)
-        if m:
+        if m and line.strip() != 'Axioms:':
             ax.append(m.group(1))
     return ax
 
@@ -307,6 +307,9 @@ class Check(object):
                 if not any(b[0] == 'proof' for b in self.broken):
                     self.broken.append(('proof', full, 'theorem does not compile or is missing'))
                 continue
+            # primitive machine integers / floats are kernel primitives, not axioms of ours
+            ax = [a for a in ax if not (a.startswith('PrimFloat.') or a.startswith('PrimInt63.')
+                                        or a.startswith('Uint63.') or a in ('float', 'int'))]
             bad = [a for a in ax if not any(a.endswith(s) for s in STDLIB_AXIOMS)]
             self.axioms[full] = ax
             if bad:
